@@ -25,6 +25,7 @@ def _regs_used(x, acc):
             _regs_used(v, acc)
 
 
+NO_STUTTER = bool(__import__('os').environ.get('GOBMC_NOSTUTTER'))
 NO_RESET = bool(__import__('os').environ.get('GOBMC_NORESET'))
 
 
@@ -507,11 +508,16 @@ class Run:
         self.can_fire_last = OR(*legal.values())
         self.last_fires = OR(*[f for f in fires.values()])
         stalled = not deterministic and not m.feasible(self.can_fire_last)
+        if stalled and self.verbose:
+            for tid in tids:
+                print("      STALL t%d en=%s dep_feasible=%s prevfires=%s" % (tid, m.feasible(OR(*en_t[tid])) if en_t[tid] else False, m.feasible(legal[tid]), list(prev["fires"].keys()) if prev else None), flush=True)
         self.prev = dict(fires=fires, R=R, W=W, confl=confl, spawned=self.new_threads_last)
         self.npar = max(self.npar, len(tids))
         return not stalled
 
     def is_stutter(self, a, res, mark):
+        if NO_STUTTER:
+            return False
         r = self._is_stutter(a, res, mark)
         if self.verbose and not r[0] and len(res) == 1 and res[0].status == "parked" and res[0].loc() == a.loc():
             print("      not a stutter:", r[1], flush=True)
